@@ -19,7 +19,20 @@ def leaf_key(e):
 
 
 def evaluate(e, env, bits=64):
-    """env: dict leaf-key -> value. Raises Uneval when a leaf is missing or an operator is not modelled."""
+    """env: dict leaf-key -> value (keys starting with '@fn:' map a callee name to a python callable).
+    Raises Uneval when a leaf is missing or an operator is not modelled."""
+    cache = env.get("@cache")
+    if cache is not None:
+        h = id(e)
+        if h in cache:
+            return cache[h][1]
+        v = _evaluate(e, env, bits)
+        cache[h] = (e, v)   # keep e alive so ids are not reused
+        return v
+    return _evaluate(e, env, bits)
+
+
+def _evaluate(e, env, bits=64):
     k = e[0]
     key = None
     if k in ("param", "field", "var", "call", "index", "len", "static"):
@@ -75,6 +88,10 @@ def evaluate(e, env, bits=64):
         if op == "Ne":
             return int(a != b)
         raise Uneval(op)
+    if k == "len":
+        return seq_len(e[1], env, bits)
+    if k == "call" and e[1].rsplit("::", 1)[-1] == "is_empty" and len(e[2]) == 1:
+        return int(seq_len(e[2][0], env, bits) == 0)
     if k == "select":
         c = evaluate(e[1], env, bits)
         return evaluate(e[2], env, bits) if c else evaluate(e[3], env, bits)
@@ -95,8 +112,13 @@ def evaluate(e, env, bits=64):
                 return int(a)
             return a & CAST_MASK[to]
         raise Uneval("cast " + to)
+    if k == "agg" and e[1] == "tuple":
+        return tuple(evaluate(a, env, bits) for a in e[2])
     if k == "call":
         name = e[1].rsplit("::", 1)[-1]
+        fnk = "@fn:" + name
+        if fnk in env:
+            return env[fnk](*[evaluate(a, env, bits) for a in e[2]])
         args = [evaluate(a, env, bits) for a in e[2]]
         if name == "min":
             return min(args)
@@ -149,6 +171,37 @@ def evaluate(e, env, bits=64):
             return max(args[0] - args[1], 0)
         raise Uneval("call " + name)
     raise Uneval(key or k)
+
+
+def seq_len(e, env, bits=64):
+    """length of a slice-valued expression from the lengths of its roots"""
+    key = "len(%s)" % sym.show(e)
+    if key in env:
+        return env[key]
+    if e[0] == "select":
+        return seq_len(e[2] if evaluate(e[1], env, bits) else e[3], env, bits)
+    if e[0] == "variant":
+        return seq_len(e[1], env, bits)
+    if e[0] == "call":
+        nm = e[1].rsplit("::", 1)[-1]
+        if nm in ("index", "index_mut") and len(e[2]) == 2 and e[2][1][0] == "agg":
+            rng = e[2][1]
+            base = seq_len(e[2][0], env, bits)
+            kind = rng[1].rsplit("::", 1)[-1]
+            if "RangeFrom" in rng[1]:
+                return base - evaluate(rng[2][0], env, bits)
+            if "RangeTo" in rng[1] and "Inclusive" not in rng[1]:
+                return evaluate(rng[2][0], env, bits)
+            if "RangeFull" in rng[1]:
+                return base
+            if rng[1].endswith("Range::Range") or kind == "Range":
+                return evaluate(rng[2][1], env, bits) - evaluate(rng[2][0], env, bits)
+        if nm in ("remainder", "into_remainder") and e[2] and e[2][0][0] == "call" and e[2][0][1].rsplit("::", 1)[-1] in ("chunks_exact", "chunks_exact_mut"):
+            inner = e[2][0]
+            return seq_len(inner[2][0], env, bits) % evaluate(inner[2][1], env, bits)
+        if nm in ("deref", "deref_mut", "as_slice", "by_ref", "as_ref", "borrow"):
+            return seq_len(e[2][0], env, bits)
+    raise Uneval(key)
 
 
 def leaves(e):
